@@ -126,7 +126,9 @@ def unit(u, res):
         import c08
         return c08.unit(u[1], res)
     C = ctx()
-    timeout_ms = u[-2]
+    # (unit tuples of kind set/assign may carry a trailing `extra variables` element: the timeout is at a fixed position, not second to last)
+    timeout_ms = u[6] if kind in ('set', 'assign') else u[-2]
+    assert isinstance(timeout_ms, int) and timeout_ms >= 1000, 'bad unit tuple %r' % (u,)
     pr = checklib.Prover(res, timeout_ms, CVC5_RATE[0], random.Random(zlib.crc32(repr(u).encode()) ^ checklib.env_seed()))
     if kind == 'set':
         _, tx, ty, name, tv, with_fn, timeout_ms, seed = u[:8]
